@@ -91,7 +91,13 @@ func genLeaf(r *rng, kind string, allowNaN bool) *node {
 }
 
 var anyContainers = []string{"slice", "gomap", "array", "list", "set", "stack", "queue", "catalog", "map", "assoc"}
-var typedContainers = []string{"ints", "strs", "flts", "msi", "lint", "sstr", "iis", "msa", "mapsa"}
+var typedContainers = []string{"ints", "strs", "flts", "msi", "lint", "sstr", "iis", "msa", "mapsa", "runes", "lrune"}
+
+// elements of []rune / []int32 slices and Lists of rune: int32 values inside and OUTSIDE the domain of Unicode scalar
+// values (negative, the surrogates 0xD800-0xDFFF, above 0x10FFFF) - a conversion to string collapses the latter to U+FFFD
+var runeElems = []int64{math.MinInt32, -1, 0, 'a', 0xD7FF, 0xD800, 0xDFFF, 0xE000, 0xFFFD, 0x10FFFF, 0x110000, math.MaxInt32}
+
+func runeElem(r *rng) *node { return &node{kind: "rune", prim: runeElems[r.intn(len(runeElems))]} }
 
 // kinds that are key/value collections (keys in kids, values in vals); msa = map[string]any, mapsa = Map[string, any]
 func isMapKind(k string) bool {
@@ -207,6 +213,10 @@ func genTyped(r *rng, k string, o genOpts) *node {
 	case "iis":
 		for i := 0; i < size; i++ {
 			n.kids = append(n.kids, genTyped(r, "ints", o))
+		}
+	case "runes", "lrune":
+		for i := 0; i < size; i++ {
+			n.kids = append(n.kids, runeElem(r))
 		}
 	case "msa", "mapsa":
 		for i := 0; i < size; i++ {
@@ -404,6 +414,15 @@ func build(n *node, r *rng) any {
 			out[i] = build(c, r).([]int)
 		}
 		return out
+	case "runes", "lrune":
+		out := make([]rune, len(n.kids))
+		for i, c := range n.kids {
+			out[i] = rune(c.prim.(int64))
+		}
+		if n.kind == "lrune" {
+			return col.List[rune](not).MakeFromArray(out)
+		}
+		return out
 	case "cyc":
 		// a List[any] that contains itself at nesting depth d, optionally next to siblings
 		d := n.prim.(int)
@@ -543,6 +562,8 @@ func mutate(r *rng, n *node, o genOpts) (*node, string, bool) {
 					e = genLeaf(r, "float64", false)
 				} else if x.kind == "iis" {
 					e = genTyped(r, "ints", o)
+				} else if x.kind == "runes" || x.kind == "lrune" {
+					e = runeElem(r)
 				} else {
 					e = genLeaf(r, "int64", false)
 				}
@@ -607,7 +628,7 @@ func mutate(r *rng, n *node, o genOpts) (*node, string, bool) {
 
 func isSeqKind(k string) bool {
 	switch k {
-	case "slice", "array", "list", "set", "stack", "queue", "ints", "strs", "flts", "lint", "sstr", "iis":
+	case "slice", "array", "list", "set", "stack", "queue", "ints", "strs", "flts", "lint", "sstr", "iis", "runes", "lrune":
 		return true
 	}
 	return false
@@ -710,6 +731,13 @@ func genCollate(prop string, seed uint64, tier, outDir string, count int) error 
 	for i := 0; i < count; i++ {
 		var caseBad []string
 		var pool []poolVal // values of this case (and neighbours of them) for the transitivity laws
+		if r.chance(1, 5) {
+			// a pool that starts with both spellings of a signed zero next to values of exactly the same magnitude:
+			// every PAIR of them can be right while a TRIPLE is not (collateedges.go)
+			for _, n := range signedZeroPool(r) {
+				pool = poolAdd(pool, n, build(n, r))
+			}
+		}
 		firstKind, firstObs := "", ""
 		var firstA, firstB any
 		var firstNA, firstNB *node
@@ -738,11 +766,13 @@ func genCollate(prop string, seed uint64, tier, outDir string, count int) error 
 					na, nb, note = genCrossKind(r) // leaves of different kinds that a conversion to the first one's width confuses
 				case d < 5:
 					na, nb, note, relation = genKeyIdentity(r, maximum) // keys that rank Equal but are not the same Go map key
+				case d < 6:
+					na, nb, note, relation = genDomainEdges(r) // []rune with non-Unicode elements; signed zeros in float / complex parts
 				default:
 					na, nb, note, nilEqual = genNilFamily(r)
 				}
 				nilFamily = true
-				if !strings.HasPrefix(note, "keyident") {
+				if !strings.HasPrefix(note, "keyident") && !strings.HasPrefix(note, "edges") {
 					relation = "differ"
 					if nilEqual {
 						relation = "equal"
@@ -896,7 +926,7 @@ func genCollate(prop string, seed uint64, tier, outDir string, count int) error 
 	meta.Cases = len(cases)
 	meta.Extra["predicate_violations"] = predViol
 	meta.Extra["cases_violating_the_property_predicates_on_the_implementation"] = len(predViol)
-	meta.Rule = "each case is one collator (maximum 16 or 1..4) and 1..6 value pairs from the structured universe (all leaf kinds with boundary values, any-containers and typed containers nested to depth 3): random same-shape pairs, independently rebuilt copies (maps inserted in another order), single-point mutations (leaf, add, remove, swap, rename key - preferring a key whose value is nil -, nil to a defined/zero value), the nil family (a fifth of the pairs: maps map[any]any / map[string]any / Map[any,any] / Map[string,any] / Catalog with a nil-valued entry against the copy, the nil-valued key renamed, the nil moved to another key, the nil replaced by a defined or zero value, renamed and defined, the entry dropped, a nil entry added; sequences differing only in nil vs 0 / \"\" / false / 0.0 / nil slice / nil map or in the position or number of nils; associations with a nil value; each also nested one or two levels; and, one directed pair in five, two adjacent leaves - 2^53 / 2^53+1, MaxInt64-1 / MaxInt64, adjacent floats, a string plus one NUL byte, or two integers whose difference overflows (MinInt64 against a positive number), or two leaves of different kinds (a byte against a wider unsigned value beyond 255, a narrow integer against a wider one beyond its range, float32 against float64) - alone or nested; and, two directed pairs in ten, two maps whose corresponding keys rank Equal without being the same Go map key (pointer keys *PK to equal values in map[*PK]any / map[any]any / Map / Catalog built independently twice; any-keys that differ only in dynamic width, int(1) / int64(1); one List key with equal contents), with the same values (RankValues must be Equal both ways) or one value changed; for all directed pairs both RankValues and CompareValues in both orders, with what the generator knows about them - copy equal, difference unequal - checked on the answers) and, for C08, self-containing lists (depth 1..3, with siblings); every pair is called in both argument orders; a case is distinct when its call/result trace differs from every other; independently of the model the properties' own statements are evaluated on the real collator's answers (predicate_violations): for every pair reflexivity of RankValues and CompareValues, the mirror law, symmetry, the natural order the property names (nil first, false<true, numeric, byte-wise strings, proper prefix first), and Compare <=> Rank Equal for pairs without mixed integer/float widths; per case transitivity of both on all ordered triples of a pool of up to 6 values (the first two pairs and mutated neighbours of them); and the first question of the case asked again after all other calls on the same collator"
+	meta.Rule = "each case is one collator (maximum 16 or 1..4) and 1..6 value pairs from the structured universe (all leaf kinds with boundary values, any-containers and typed containers nested to depth 3): random same-shape pairs, independently rebuilt copies (maps inserted in another order), single-point mutations (leaf, add, remove, swap, rename key - preferring a key whose value is nil -, nil to a defined/zero value), the nil family (a fifth of the pairs: maps map[any]any / map[string]any / Map[any,any] / Map[string,any] / Catalog with a nil-valued entry against the copy, the nil-valued key renamed, the nil moved to another key, the nil replaced by a defined or zero value, renamed and defined, the entry dropped, a nil entry added; sequences differing only in nil vs 0 / \"\" / false / 0.0 / nil slice / nil map or in the position or number of nils; associations with a nil value; each also nested one or two levels; and, one directed pair in five, two adjacent leaves - 2^53 / 2^53+1, MaxInt64-1 / MaxInt64, adjacent floats, a string plus one NUL byte, or two integers whose difference overflows (MinInt64 against a positive number), or two leaves of different kinds (a byte against a wider unsigned value beyond 255, a narrow integer against a wider one beyond its range, float32 against float64) - alone or nested; and, two directed pairs in ten, two maps whose corresponding keys rank Equal without being the same Go map key (pointer keys *PK to equal values in map[*PK]any / map[any]any / Map / Catalog built independently twice; any-keys that differ only in dynamic width, int(1) / int64(1); one List key with equal contents), with the same values (RankValues must be Equal both ways) or one value changed; one directed pair in ten from the edges of a domain: []rune / List[rune] with elements that are not Unicode scalar values (negative, surrogates, above 0x10FFFF), and the two spellings of a signed zero in a float or in a part of a complex number (equal) or one of them against a value of the same magnitude and another phase; one case in five starts its transitivity pool with both spellings of a negative real (or of a zero real part, or -0.0/+0.0) and two values of the same magnitude; for all directed pairs both RankValues and CompareValues in both orders, with what the generator knows about them - copy equal, difference unequal - checked on the answers) and, for C08, self-containing lists (depth 1..3, with siblings); every pair is called in both argument orders; a case is distinct when its call/result trace differs from every other; independently of the model the properties' own statements are evaluated on the real collator's answers (predicate_violations): for every pair reflexivity of RankValues and CompareValues, the mirror law, symmetry, the natural order the property names (nil first, false<true, numeric, byte-wise strings, proper prefix first), and Compare <=> Rank Equal for pairs without mixed integer/float widths; per case transitivity of both on all ordered triples of a pool of up to 6 values (the first two pairs and mutated neighbours of them); and the first question of the case asked again after all other calls on the same collator"
 	for i := 0; i < 3 && i < len(cases); i++ {
 		meta.Samples = append(meta.Samples, meta.Traces[i*len(cases)/3])
 	}
@@ -928,7 +958,7 @@ func genSameShape(r *rng, na *node, depth int, o genOpts) *node {
 			return genLeaf(r, leafKinds[r.intn(len(leafKinds))], o.allowNaN) // mixed types under any
 		}
 		return genLeaf(r, na.kind, o.allowNaN)
-	case na.kind == "ints" || na.kind == "strs" || na.kind == "flts" || na.kind == "msi" || na.kind == "lint" || na.kind == "sstr" || na.kind == "iis" || na.kind == "msa" || na.kind == "mapsa":
+	case na.kind == "ints" || na.kind == "strs" || na.kind == "flts" || na.kind == "msi" || na.kind == "lint" || na.kind == "sstr" || na.kind == "iis" || na.kind == "msa" || na.kind == "mapsa" || na.kind == "runes" || na.kind == "lrune":
 		return genTyped(r, na.kind, o)
 	default:
 		if r.chance(1, 5) {
@@ -1045,7 +1075,7 @@ func neighbourLeaf(r *rng, x *node) *node {
 // every typed container kind is a family of its own, the containers over `any` of one coarse type share one
 func elemTyping(k string) string {
 	switch k {
-	case "ints", "strs", "flts", "iis", "msi", "lint", "sstr", "msa", "mapsa", "pkmap":
+	case "ints", "strs", "flts", "iis", "msi", "lint", "sstr", "msa", "mapsa", "pkmap", "runes", "lrune":
 		return "typed:" + k
 	}
 	return "any"
@@ -1054,11 +1084,11 @@ func elemTyping(k string) string {
 // the coarse type name under which the collator files a container (getType)
 func coarse(k string) string {
 	switch k {
-	case "slice", "nilslice", "ints", "strs", "flts", "iis":
+	case "slice", "nilslice", "ints", "strs", "flts", "iis", "runes":
 		return "array"
 	case "gomap", "nilmap", "msi", "msa", "mapsa", "pkmap":
 		return "map"
-	case "lint":
+	case "lint", "lrune":
 		return "list"
 	case "sstr":
 		return "set"
